@@ -195,6 +195,21 @@ CHECKS = {
         note="the scope model is mc/ref.py's push/top_ctx (frames as dicts) - an independent implementation of the documented context rules; "
              "LazyStruct members do not use sibling references or _index (documented restriction); no claim for Select/Tunnel re-rooting",
         design="§3 C07"),
+    "C16": dict(
+        technique="explicit-state BFS over access histories of lazy results (state = cached member set x stream position, replayed from a fresh parse per transition), eager parse as reference model",
+        text="LazyStruct over every member list of length 1..3 (and length 4 with two kinds in thorough) from nine member kinds (fixed, "
+             "context-sized, length-prefixed with and without includelength, counted array, VarInt, CString, anonymous Const), LazyArray "
+             "(n<=3/4) of each kind and Lazy(x) at first/middle/last position are embedded in an outer Struct with a length byte, a "
+             "trailing Byte and Tell and parsed on canonical inputs and on every accepted single-byte mutation. From the state after "
+             "parse_stream a breadth-first search applies every accessor (by name, index, attribute, keys/values/items/iter/len, all "
+             "slices, forcing a thunk, build), deduplicating on (cached indices, stream position), to depth members+2; every transition "
+             "replays its history on a fresh parse. Invariants: accessor value == eager value, parse_stream ends where eager ends, "
+             "stream position unchanged by an access, trailing siblings equal, build(lazy)==build(eager). Further units: a sibling that "
+             "reads a lazy member during the parse (5 shapes x 256 inputs) and several lazy containers over one stream with every "
+             "interleaved access history up to length 4/5.",
+        note="the eager Struct/Array parse of the same members is the reference; no claim when the eager parse rejects; ==, in, .get and "
+             "negative indices are not claimed; documented cross-reference restrictions respected",
+        design="§3 C16"),
 }
 
 PENDING_REASON = "check not built yet in this round (see DESIGN.md §7 build order); it will be decided by the same bounded-exhaustive engine"
